@@ -368,3 +368,45 @@ Proof.
   - apply N.ltb_ge in E. rewrite Nat2N.id. change 1%N with (N.of_nat 1). rewrite <- (C_0_r n).
     change 0%N with (N.of_nat 0). apply (binom_loop64_spec n Hn k 0). lia.
 Qed.
+
+(* --- the binary-arithmetic variant of the state machine is the image of it_run under N.of_nat --- *)
+Lemma binom_loopN_spec n : forall steps i res,
+  binom_loopN (N.of_nat n) (N.of_nat i) steps (N.of_nat res) = N.of_nat (binom_loop n i steps res).
+Proof.
+  induction steps as [|s IH]; intros i res; cbn [binom_loopN binom_loop]; [reflexivity|].
+  replace (N.succ (N.of_nat i)) with (N.of_nat (S i)) by lia.
+  replace (N.of_nat res * (N.of_nat n - N.of_nat i) / N.of_nat (S i))%N with (N.of_nat (res * (n - i) / S i)).
+  - apply IH.
+  - rewrite Nat2N.inj_div, Nat2N.inj_mul, Nat2N.inj_sub. reflexivity.
+Qed.
+Lemma binomN_spec n k : binomN n k = N.of_nat (binom n k).
+Proof.
+  unfold binomN, binom. destruct (n <? k); [reflexivity|].
+  change 0%N with (N.of_nat 0). change 1%N with (N.of_nat 1). apply binom_loopN_spec.
+Qed.
+Lemma hint_sumN : forall (l : list (nat * nat)) acc,
+  fold_left N.add (map (fun p => binomN (snd p) (S (fst p))) l) (N.of_nat acc) =
+  N.of_nat (fold_left Nat.add (map (fun p => binom (snd p) (S (fst p))) l) acc).
+Proof.
+  induction l as [|a t IH]; intros acc; cbn [map fold_left]; [reflexivity|].
+  rewrite binomN_spec, <- Nat2N.inj_add. apply IH.
+Qed.
+Lemma it_hintN_spec n k st : it_hintN n k st = option_map N.of_nat (it_hint n k st).
+Proof.
+  destruct st as [idx|]; cbn [it_hintN it_hint option_map]; [|rewrite binomN_spec; reflexivity].
+  change 0%N with (N.of_nat 0). rewrite hint_sumN, binomN_spec.
+  set (r := fold_left Nat.add _ 0).
+  destruct (binom n k <? r + 1) eqn:E.
+  - apply Nat.ltb_lt in E. replace (N.of_nat (binom n k) <? N.of_nat r + 1)%N with true; [reflexivity|]. symmetry. apply N.ltb_lt. lia.
+  - apply Nat.ltb_ge in E. replace (N.of_nat (binom n k) <? N.of_nat r + 1)%N with false; [cbn [option_map]; f_equal; lia|].
+    symmetry. apply N.ltb_ge. lia.
+Qed.
+Theorem it_runN_spec n k : forall fuel st,
+  it_runN fuel n k st = (map (option_map N.of_nat) (fst (it_run fuel n k st)), snd (it_run fuel n k st)).
+Proof.
+  induction fuel as [|f IH]; intros st; cbn [it_runN it_run].
+  - cbn [fst snd map]. rewrite it_hintN_spec. reflexivity.
+  - destruct (it_next n k st) as [st' [v|]].
+    + rewrite IH. destruct (it_run f n k st') as [hs vs]. cbn [fst snd map]. rewrite it_hintN_spec. reflexivity.
+    + cbn [fst snd map]. rewrite !it_hintN_spec. reflexivity.
+Qed.
